@@ -180,7 +180,8 @@ REQUIRED_C01 = ["t2t_roundtrips", "t2t_capacity_checked", "t2t_oversize_rejected
                 "t2t_c01_retry_fault_at_message_write", "t2t_c01_retry_fault_at_length_zero_write",
                 "t2t_c01_retry_fault_at_last_write", "t2t_c01_retry_empty_final_message",
                 "t2t_c01_retry_two_failed_attempts", "t2t_c01_retry_tag_unchanged_by_failed_attempts",
-                "t2t_c01_retry_with_new", "t2t_c01_retry_with_old", "t2t_c01_retry_with_variation"]
+                "t2t_c01_retry_with_new", "t2t_c01_retry_with_old", "t2t_c01_retry_with_variation",
+                "t2t_c01_retry_write_executed_but_not_acknowledged"]
 
 
 def plan_c01(tier):
@@ -425,6 +426,12 @@ def c01_retry_enumerate(case, R, rng, tier):
         c["faults"] = faults
         c["retry_with"] = rng.choice(["new", "new", "new", "old", "variation"])
         c01_retry_case(c, R, writes=writes)
+    # a WRITE the tag executed without the reader getting the acknowledge, then the application restores the old message
+    for j in set([writes[-1], rng.choice(writes)]):
+        c = dict(case)
+        c["faults"] = [[j, "rsp_lost"]]
+        c["retry_with"] = "old"
+        c01_retry_case(c, R, writes=writes)
 
 
 def c01_retry_case(case, R, writes=None):
@@ -514,6 +521,15 @@ def c01_retry_case(case, R, writes=None):
     rr = L.ref_read(model.mem)
     R.count("t2t_c01_retry_ref_reader_checked")
     mech = "length-zero-write" if not final else "message"
+    # discriminator (observed at the device): a WRITE of a failed attempt was executed by the tag while its acknowledge
+    # never reached the reader, and the completed assignment did not send a WRITE to that page (single-sector tags)
+    executed = set(c[1] for n, c, r in dev.log if n < n0 and c[:1] == b"\xA2" and isinstance(r, str) and r.startswith("rsp_lost"))
+    rewritten = set(c[1] for n, c, r in dev.log if n >= n0 and c[:1] == b"\xA2")
+    if executed:
+        R.count("t2t_c01_retry_write_executed_but_not_acknowledged")
+    if executed - rewritten and len(image) <= 1024:
+        R.count("t2t_c01_retry_unacknowledged_write_not_repeated")
+        mech += "/unacknowledged-write-not-repeated"
     if rr.status != "ndef" or rr.message != final:
         R.violation(sigbase + "reference-reader/" + mech,
                     "%s, but the reference reader sees %s (stored before: %d bytes)" % (
